@@ -1225,7 +1225,30 @@ impl Scenario for MigScenario {
                                 next.push(a.max(eff));
                             }
                         }
+                        // transactions that can never mine: marked unsatisfiable, or expired unmined at the scanned target,
+                        // and everything that depends on one of them, to any depth. Waiting for such a transaction's own
+                        // schedule or expiry changes nothing: when every unmined transaction is dead the engine must say so.
+                        let target = world.scanned.saturating_add(1);
+                        let mut dead: BTreeSet<MigrationTransferId> = state
+                            .transactions()
+                            .iter()
+                            .filter(|t| !matches!(t.state(), MigrationTxState::Mined { .. }) && !world.mined.contains_key(t.txid().as_ref()) && (t.unsatisfiable().is_some() || u32::from(t.expiry_height()) < target))
+                            .map(|t| t.id())
+                            .collect();
+                        loop {
+                            let more: Vec<MigrationTransferId> = state.transactions().iter().filter(|t| !matches!(t.state(), MigrationTxState::Mined { .. }) && !dead.contains(&t.id()) && t.depends_on().iter().any(|d| dead.contains(d))).map(|t| t.id()).collect();
+                            if more.is_empty() {
+                                break;
+                            }
+                            dead.extend(more);
+                        }
+                        if dead.len() >= 3 {
+                            ctx.probe("dead_set_depth_reached");
+                        }
                         for t in state.transactions() {
+                            if dead.contains(&t.id()) {
+                                continue;
+                            }
                             match t.state() {
                                 MigrationTxState::Mined { .. } => {}
                                 MigrationTxState::Broadcast { .. } => {
